@@ -135,11 +135,15 @@ package common
 //@   property C21 C38
 //@   requires query.Order != nil
 //@   requires query.PaginationID != nil ==> query.Bottom != nil
+//@   requires query.PageSize <= 2147483647
+//@   requires is(fieldType, queries.TypeDate) || is(fieldType, queries.TypeNumeric)
 //@   ensures r.query == query && r.fieldName == fieldName
+//@   note the page size bound keeps int(pageSize)+1 from wrapping (BuildCursor would slice ret[:len(ret)-1] on an empty page); only date and numeric columns have a pagination id (findPaginationField panics on any other type)
 
 //@ func newOffsetPaginator(query OffsetPaginatedQuery[OptionsType]) (r OffsetPaginator[ResourceType, OptionsType])
 //@   property C21 C38
 //@   requires query.Order != nil
+//@   requires query.PageSize <= 2147483647
 //@   ensures r.query == query
 
 //@ func (r *PaginatedResourceRepository[ResourceType, OptionsType]) Paginate(ctx context.Context, paginationQuery PaginatedQuery[OptionsType]) (c *paginate.Cursor[ResourceType], err error)
